@@ -1,5 +1,6 @@
 import BufrModel.Template
 import BufrProofs.Expand
+import BufrProofs.ExpandTotal
 /-
   C10 — template expansion equals the regulated expansion, and always terminates.
 
@@ -56,6 +57,65 @@ theorem C10_rejects (T : Tables) (fuel edition : Nat) (ds : List Nat)
   intro t ht
   exact h ⟨_, C10_static_refines T fuel edition ds t ht⟩
 
+theorem expandSequence_fuel (T : Tables) (f flags : Nat) (ns : List Node)
+    (h : expandSequence T f flags ns = .error .fuel) : expandList T f flags none ns = .error .fuel := by
+  unfold expandSequence at h
+  split at h
+  · cases h
+  · cases h
+  · rename_i e he
+    injection h with h
+    subst h
+    exact he
+
+theorem createTemplate_fuel (T : Tables) (f edition : Nat) (ds : List Nat)
+    (h : createTemplate T f edition ds = .error .fuel) :
+    expandSequence T f 0 (ds.map (mkNode T)) = .error .fuel := by
+  unfold createTemplate at h
+  split at h
+  · cases h
+  · split at h
+    · cases h
+    · split at h
+      · rename_i e he
+        injection h with h
+        subst h
+        exact he
+      · cases h
+
+/-- **Termination.**  The model's recursion is bounded by a fuel argument and answers `.error .fuel` where the
+C would recurse without end (a Table D sequence that contains itself, replication spans that keep unrolling).
+Whenever the regulation expansion of the list exists — a finite derivation — there is a recursion depth from
+which on the template builder never gives that answer: it returns the template of `C10_static_refines`, or
+refuses the list for one of the library's own reasons.  No bound on the list, the table or the nesting. -/
+theorem C10_terminates (T : Tables) (edition : Nat) (ds : List Nat) (h : ∃ out, Static T ds out) :
+    ∃ f0, ∀ f, f0 ≤ f → createTemplate T f edition ds ≠ .error .fuel := by
+  obtain ⟨out, hs⟩ := h
+  obtain ⟨f0, hE⟩ := static_total T ds out hs
+  refine ⟨f0, ?_⟩
+  intro f hf
+  have hx := hE f hf (ds.map (mkNode T)) (by simp [List.map_map, Function.comp_def, mkNode_desc])
+    (by intro n hn; simp only [List.mem_map] at hn; obtain ⟨d, _, rfl⟩ := hn; exact mkNode_fresh T d)
+  intro hh
+  exact hx (expandSequence_fuel T f 0 _ (createTemplate_fuel T f edition ds hh))
+
+/-- and then the outcome is the regulation's: with that much fuel the builder either returns the regulation
+expansion or refuses; it never diverges and never returns anything else -/
+theorem C10_total_correct (T : Tables) (edition : Nat) (ds : List Nat) (h : ∃ out, Static T ds out) :
+    ∃ f0, ∀ f, f0 ≤ f →
+      (∃ t, createTemplate T f edition ds = .ok t ∧ Static T ds (items t.gabarit)) ∨
+      createTemplate T f edition ds = .error .null ∨ createTemplate T f edition ds = .error .abort := by
+  obtain ⟨f0, hT⟩ := C10_terminates T edition ds h
+  refine ⟨f0, ?_⟩
+  intro f hf
+  cases hc : createTemplate T f edition ds with
+  | ok t => exact Or.inl ⟨t, rfl, C10_static_refines T f edition ds t hc⟩
+  | error e =>
+    cases e with
+    | null => exact Or.inr (Or.inl rfl)
+    | abort => exact Or.inr (Or.inr rfl)
+    | fuel => exact absurd hc (hT f hf)
+
 /-- templates naming an element that is in no table (and not described by 2 06 YYY), or a number
 that is not a descriptor at all, are refused before anything is expanded -/
 theorem C10_rejects_unknown (T : Tables) (fuel edition : Nat) (ds : List Nat)
@@ -97,6 +157,21 @@ example : ¬ ∃ out, Static exT [102003, 1001] out := by
   | seq _ _ _ _ _ h => simp [Desc.f] at h
   | fixed _ _ _ _ _ _ hl => simp [Desc.x] at hl
   | delayed _ _ _ _ _ hy => simp [Desc.y] at hy
+
+/-- the hypothesis of `C10_terminates` is met by the nested template above: its regulation expansion exists -/
+example : ∃ out, Static exT [301001, 101000, 31001, 12101] out := by
+  refine ⟨_, Static.seq 301001 _ { desc := 301001, members := [1001, 102002, 12101, 1001] } _ _ (by decide) rfl
+    (Static.elem 1001 _ _ (by decide)
+      (Static.fixed 102002 [12101, 1001] _ _ (by decide) (by decide) (by decide)
+        (Static.elem 12101 _ _ (by decide) (Static.elem 1001 _ _ (by decide)
+          (Static.elem 12101 _ _ (by decide) (Static.elem 1001 _ _ (by decide) Static.nil))))
+        Static.nil))
+    (Static.delayed 101000 31001 [12101] _ (by decide) (by decide) (by unfold isClass31; decide) Static.nil)⟩
+
+/-- and a table whose sequence contains itself has no regulation expansion and makes the model run out of any
+fuel: the C recurses until its stack is gone (DESIGN §10: cyclic Table D) -/
+def cycT : Tables := { exT with fetchD := fun d => if d = 301001 then some { desc := 301001, members := [1001, 301001] } else none }
+example : (match createTemplate cycT 50 4 [301001] with | .error .fuel => true | _ => false) = true := by decide +kernel
 
 def refused (r : Except XErr Template) : Bool := match r with | .error .null => true | _ => false
 example : refused (createTemplate exT 100 4 [102003, 1001]) = true := by decide +kernel
